@@ -181,8 +181,8 @@ def run_one(ck, c, idx, lines, keep):
     if c["kind"] == "mesh" and idx % 3 == 1:
         rows, efm = mesh_facts(t)
         sup = [list(k) if (idx + i) % 2 else [k[1], k[0]] for i, k in enumerate(sorted(efm))]
-        sup = sup[idx % len(sup):] + sup[:idx % len(sup)]
-        sup.reverse()
+        # a generic permutation (NOT an involution: a permutation equal to its inverse hides inverse/forward mix-ups)
+        ck.rng.shuffle(sup)
     try:
         out, g = impl(t, lon, lat, idx, sup)
     except Exception as ex:
